@@ -9,8 +9,9 @@ import re
 import keyword
 
 IMPORTS = 'From Tranp Require Import Model.Dsn.'
-ADVERSARIAL = ['foo', 'foo_', 'foobar', 'foo__bar', 'bar', 'a', 'b', 'x', 'block', 'name', 'var', 'function_def', 'class_def_raw', 'i', 'l', 'O', 'self_', 'n', 'nn', 'n_n', '__x', 'x__', 'Cls', 'ClsCls', 'T1', 'value', 'values',
+ADVERSARIAL = ['foo', 'foo_', 'foobar', 'foo__bar', 'bar', 'a', 'b', 'x', 'block', 'name', 'var', 'function_def', 'class_def_raw', 'i', 'l', 'O', 'self_', 'n', 'nn', 'n_n', 'x__', 'Cls', 'ClsCls', 'T1', 'value', 'values',
                'item', 'items', 'k', 'v', 'kv', 'args', 'result', 'res', 'r', 'tmp', 'tmp2', 'tmp_2', 'A', 'AA', 'aA', 'file_input', 'module_path', 'entry', 'e', 'E', 'long_identifier_with_many_parts_0', 'z9', 'Z']
+# (names with a leading underscore are left out of the pools: tranp derives the C++ accessor from them - protected / private)
 RESERVED = set(keyword.kwlist) | {'int', 'str', 'float', 'bool', 'list', 'dict', 'tuple', 'len', 'range', 'print', 'self', 'cls', 'Enum', 'None', 'True', 'False', 'enumerate', 'super', 'object', 'type', 'id', 'min', 'max', 'abs',
                                   'auto', 'const', 'void', 'char', 'double', 'long', 'short', 'signed', 'unsigned', 'struct', 'union', 'this', 'new', 'delete', 'template', 'typename', 'namespace', 'public', 'private', 'protected', 'virtual', 'static'}
 
